@@ -1050,3 +1050,33 @@ M('C13-twin-dedupe-exact', 'C13', LISTENER,
   expect='silent')
 M('C10-twin-str-message', 'C10', CONN, "                msg = json.loads(packet.json_data)['text']",
   "                msg = str(json.loads(packet.json_data)['text'])", expect='silent')
+
+# ------------------------------------------------ twins added after seeding wave 2
+M('C17-twin-manual-signed-correct', 'C17', ENC,
+  "    try:\n        return int.from_bytes(b, byteorder='big', signed=signed)\n    except AttributeError:  # pragma: no cover\n        # py-2 compatibility\n        if len(b) == 0:\n            b = b'\\x00'\n        num = int(str(b).encode('hex'), 16)\n        if signed and (ord(b[0]) & 0x80):\n            num -= 2 ** (len(b) * 8)\n        return num",
+  "    num = int(hexlify(b) or b'0', 16)\n    if signed and ord(b[:1] or b'\\x00') >= 0x80:\n        num -= 1 << (len(b) * 8)\n    return num",
+  expect='silent', edits=[
+      dict(file=ENC, find="    try:\n        return int.from_bytes(b, byteorder='big', signed=signed)\n    except AttributeError:  # pragma: no cover\n        # py-2 compatibility\n        if len(b) == 0:\n            b = b'\\x00'\n        num = int(str(b).encode('hex'), 16)\n        if signed and (ord(b[0]) & 0x80):\n            num -= 2 ** (len(b) * 8)\n        return num",
+           repl="    num = int(hexlify(b) or b'0', 16)\n    if signed and ord(b[:1] or b'\\x00') >= 0x80:\n        num -= 1 << (len(b) * 8)\n    return num"),
+      dict(file=ENC, find="import os\n", repl="import os\nfrom binascii import hexlify\n")])
+M('C17-manual-signed-off-by-one', 'C17', ENC, "", "", rule='R17.2', edits=[
+      dict(file=ENC, find="    try:\n        return int.from_bytes(b, byteorder='big', signed=signed)\n    except AttributeError:  # pragma: no cover\n        # py-2 compatibility\n        if len(b) == 0:\n            b = b'\\x00'\n        num = int(str(b).encode('hex'), 16)\n        if signed and (ord(b[0]) & 0x80):\n            num -= 2 ** (len(b) * 8)\n        return num",
+           repl="    num = int(hexlify(b) or b'0', 16)\n    if signed and ord(b[:1] or b'\\x00') > 0x80:\n        num -= 1 << (len(b) * 8)\n    return num"),
+      dict(file=ENC, find="import os\n", repl="import os\nfrom binascii import hexlify\n")])
+M('C10-twin-stream-local-per-read', 'C10', CONN,
+  "                packet = self.connection.reactor.read_packet(\n                    self.connection.file_object, timeout=read_timeout)",
+  "                stream = self.connection.file_object\n                packet = self.connection.reactor.read_packet(\n                    stream, timeout=read_timeout)",
+  expect='silent')
+M('C10-stream-hoisted', 'C10', CONN,
+  "            # Read and react to as many as 50 packets.\n            while num_packets < 50 and not self.interrupt:\n                packet = self.connection.reactor.read_packet(\n                    self.connection.file_object, timeout=read_timeout)",
+  "            # Read and react to as many as 50 packets.\n            stream = self.connection.file_object\n            while num_packets < 50 and not self.interrupt:\n                packet = self.connection.reactor.read_packet(\n                    stream, timeout=read_timeout)",
+  rule='R10.9')
+M('C16-shutdown-write-only', 'C16', CONN, "self.socket.shutdown(socket.SHUT_RDWR)", "self.socket.shutdown(socket.SHUT_WR)",
+  rule='R16.5')
+M('C18-secret-cached-on-context', 'C18', CONN, "            secret = encryption.generate_shared_secret()\n",
+  "            secret = getattr(self.connection, '_secret', None)\n            if secret is None:\n                secret = encryption.generate_shared_secret()\n                self.connection._secret = secret\n",
+  rule='R18.4')
+M('C08-context-caches-index', 'C08', CONN,
+  "    def __init__(self, **kwds):\n        self.protocol_version = kwds.get('protocol_version')\n\n    def protocol_earlier(self, other_pv):\n        \"\"\"Returns True if the protocol version of this context was published\n           earlier than 'other_pv', or else False.\"\"\"\n        return utility.protocol_earlier(self.protocol_version, other_pv)",
+  "    def __init__(self, **kwds):\n        self.protocol_version = kwds.get('protocol_version')\n        self._index = PROTOCOL_VERSION_INDICES.get(self.protocol_version)\n\n    def protocol_earlier(self, other_pv):\n        \"\"\"Returns True if the protocol version of this context was published\n           earlier than 'other_pv', or else False.\"\"\"\n        return self._index < PROTOCOL_VERSION_INDICES[other_pv]",
+  rule='R08.4')
